@@ -36,9 +36,9 @@ var c11Err *eng.Kind[ErrCase]
 
 func init() {
 	c := eng.Register(&eng.Check{
-		ID:    "C11",
-		Title: "Host functions are called exactly as declared, or not at all",
-		Rule: "signatures synthesised with reflect.FuncOf/MakeFunc: 0..2 fixed parameters over 17 kinds x variadic tail (none or one of 8 scalar kinds) x optional leading context x 7 result configurations; every argument list of length 0..n+2 over 10 argument kinds, with and without spread; each call is evaluated on the real evaluator, every invocation is recorded and compared with a partial specification table (definite value / must fail without invoking / unspecified); error deviations: f(g(1), h(2)) with every subset of sites failing; distinct = distinct (verdict, received values) classes",
+		ID:          "C11",
+		Title:       "Host functions are called exactly as declared, or not at all",
+		Rule:        "signatures synthesised with reflect.FuncOf/MakeFunc: 0..2 fixed parameters over 17 kinds x variadic tail (none or one of 8 scalar kinds) x optional leading context x 7 result configurations; every argument list of length 0..n+2 over 10 argument kinds, with and without spread; each call is evaluated on the real evaluator, every invocation is recorded and compared with a partial specification table (definite value / must fail without invoking / unspecified); error deviations: f(g(1), h(2)) with every subset of sites failing; distinct = distinct (verdict, received values) classes",
 		TrustedBase: []string{"conversion table written from the statement in checks/c11.go", "reflect.MakeFunc recording functions"},
 		Assumptions: []string{"cells of the table that the statement does not fix (null into non-interface parameters, bool<->number, spread standing in for fixed parameters ...) are only required not to panic and to invoke at most once"},
 		Run:         runC11,
@@ -119,7 +119,7 @@ const (
 	vU        // unspecified
 )
 
-type anyValue struct{}   // invoked, received value not fixed
+type anyValue struct{} // invoked, received value not fixed
 type decWant struct{ s string }
 type numText struct{ s string }
 type identWant struct{ obj interface{} }
